@@ -652,3 +652,200 @@ Proof.
   do 2 eexists. repeat split; try (repeat constructor; fail).
   vm_compute. intro H. discriminate H.
 Qed.
+
+(* ------------------------------------------------------------------ a row of the result reads only its own row of the inputs *)
+Lemma Forall_zipWith {A B C} (PA : A -> Prop) (PB : B -> Prop) (PC : C -> Prop) (f : A -> B -> C) la lb :
+  Forall PA la -> Forall PB lb -> (forall a b, PA a -> PB b -> PC (f a b)) -> Forall PC (zipWith f la lb).
+Proof.
+  intros Ha. revert lb. induction Ha as [|a la Pa Ha IH]; intros lb Hb Hf; [constructor|].
+  destruct Hb as [|b lb Pb Hb]; [rewrite zipWith_nil_r; constructor|].
+  rewrite zipWith_cons. constructor; [apply Hf; assumption|apply IH; assumption].
+Qed.
+
+Lemma Forall_firstn' {A} (P : A -> Prop) n l : Forall P l -> Forall P (firstn n l).
+Proof. intro H. revert n. induction H; intros [|n]; cbn; constructor; auto. Qed.
+
+Lemma Forall_skipn' {A} (P : A -> Prop) n l : Forall P l -> Forall P (skipn n l).
+Proof. intro H. revert n. induction H; intros [|n]; cbn; try constructor; auto. Qed.
+
+Lemma Forall_split_sizes {A} (P : A -> Prop) nv l : Forall P l -> Forall (Forall P) (split_sizes nv l).
+Proof.
+  revert l; induction nv as [|n nv IH]; intros l H; cbn; constructor.
+  - apply Forall_firstn'; assumption.
+  - apply IH. apply Forall_skipn'; assumption.
+Qed.
+
+Lemma Forall_combine {A B} (PA : A -> Prop) (PB : B -> Prop) la lb :
+  Forall PA la -> Forall PB lb -> Forall (fun p => PA (fst p) /\ PB (snd p)) (combine la lb).
+Proof.
+  intros Ha. revert lb. induction Ha; intros lb Hb; [constructor|].
+  destruct Hb; cbn; constructor; auto.
+Qed.
+
+Lemma forallb_Forall (b : nat) l : forallb (only_row b) l = true <-> Forall (fun e => only_row b e = true) l.
+Proof. rewrite forallb_forall, Forall_forall. reflexivity. Qed.
+
+Lemma spec_row_local sp sq b lrow ls arow :
+  Forall (fun e => only_row b e = true) lrow -> Forall (fun e => only_row b e = true) ls ->
+  Forall (fun e => only_row b e = true) arow -> arow <> [] ->
+  only_row b (spec_logprob_row sp sq lrow ls arow) = true.
+Proof.
+  intros Hl Hs Ha Hne.
+  destruct sp as [n|nv|n|d]; cbn [spec_logprob_row].
+  - cbn [only_row]. apply andb_true_iff. split; [apply forallb_Forall; assumption|].
+    destruct arow; [contradiction|]. inversion Ha; assumption.
+  - cbn [only_row]. apply forallb_Forall.
+    apply (Forall_zipWith (Forall (fun e => only_row b e = true)) (fun e => only_row b e = true)); try assumption.
+    + apply Forall_split_sizes; assumption.
+    + intros seg a Hseg Hx. cbn [only_row]. apply andb_true_iff. split; [apply forallb_Forall|]; assumption.
+  - cbn [only_row]. apply forallb_Forall.
+    apply (Forall_zipWith (fun e => only_row b e = true) (fun e => only_row b e = true)); try assumption.
+    intros l a Hx Hy. cbn [only_row]. rewrite Hx, Hy. reflexivity.
+  - assert (HN : forall w, (forall a, only_row b a = true -> only_row b (w a) = true) ->
+                 Forall (fun e => only_row b e = true) (zip3With (fun m s a => NormalLogPdf m (Exp s) (w a)) lrow ls arow)).
+    { intros w Hw. unfold zip3With.
+      apply (Forall_zipWith (fun p => only_row b (fst p) = true /\ only_row b (snd p) = true) (fun e => only_row b e = true));
+        [apply (Forall_combine (fun e => only_row b e = true) (fun e => only_row b e = true)); assumption|assumption|].
+      intros [m s] a [Hm Hs'] Hx. cbn [fst snd only_row] in *. rewrite Hm, Hs', (Hw a Hx). reflexivity. }
+    destruct sq; cbn [only_row].
+    + apply andb_true_iff. split; apply forallb_Forall.
+      * apply (HN (fun a => Atanh (Clamp1 a))). intros a Hx. exact Hx.
+      * apply Forall_forall. intros e He. apply in_map_iff in He as [a [<- Hin]]. cbn [only_row].
+        rewrite Forall_forall in Ha. apply Ha; assumption.
+    + apply forallb_Forall. apply (HN (fun a => a)). auto.
+Qed.
+
+Lemma rows_of_nonempty sp B act b : wf_action sp B act -> 0 < ncomp sp -> b < B -> nth b (rows_of act) [] <> [].
+Proof.
+  destruct sp as [n|nv|n|d]; destruct act as [v|m|]; cbn [wf_action rows_of]; try contradiction; intros H Hc Hb.
+  1: { rewrite (nth_map_in _ dflt) by lia. discriminate. }
+  all: pose proof (wf_rows_nth B _ m b H Hb) as HL; intro E; rewrite E in HL; cbn [ncomp length] in *; lia.
+Qed.
+
+Lemma rows_of_length sp B act : wf_action sp B act -> length (rows_of act) = B.
+Proof.
+  destruct sp, act; cbn [wf_action rows_of]; try contradiction; try (intros [H _]; exact H).
+  intro H. rewrite map_length. exact H.
+Qed.
+
+Theorem rows_independent_lemma sp sq lg ls act B b :
+  length lg = B -> wf_action sp B act -> 0 < ncomp sp ->
+  local2 lg -> local2 (rows_of act) -> (forall b', Forall (fun e => only_row b' e = true) ls) ->
+  b < B ->
+  match spec_logprob sp sq lg ls act with
+  | T1 v => only_row b (nth b v dflt) = true
+  | _ => False
+  end.
+Proof.
+  intros HL Hact Hc Hlg Hac Hls Hb. unfold spec_logprob.
+  pose proof (rows_of_length sp B act Hact) as HR.
+  rewrite (nth_zipWith _ [] [] dflt) by lia.
+  apply spec_row_local.
+  - apply Hlg. lia.
+  - apply Hls.
+  - apply Hac. lia.
+  - eapply rows_of_nonempty; eassumption.
+Qed.
+
+(* ------------------------------------------------------------------ the rewrite is sound for every interpretation with atanh(clamp(tanh x)) = x *)
+Section SimpSound.
+  Variable T : Type.
+  Variable P : prims T.
+  Variable rho : string -> nat -> nat -> T.
+  Hypothesis inv : forall x, p_atanh T P (p_clamp T P (p_tanh T P x)) = x.
+
+  Let den := denote T P rho.
+
+  Lemma map_den_simp l : Forall (fun e => den (simp e) = den e) l -> map den (map simp l) = map den l.
+  Proof. induction 1 as [|e l He _ IH]; [reflexivity|]. cbn [map]. rewrite He, IH. reflexivity. Qed.
+
+  Lemma simp_sound_e e : den (simp e) = den e.
+  Proof.
+    induction e using expr_ind'; unfold den in *; cbn [simp denote];
+      try (repeat match goal with H : denote _ _ _ (simp _) = _ |- _ => rewrite H; clear H end; reflexivity);
+      try (fold den; rewrite map_den_simp by assumption; try rewrite IHe; reflexivity).
+    - (* Atanh *)
+      destruct e; cbn [simp denote] in *; try reflexivity; try (rewrite IHe; reflexivity).
+      destruct e; cbn [simp denote] in *; try reflexivity; try (rewrite IHe; reflexivity).
+      apply (f_equal (p_atanh T P)) in IHe. rewrite !inv in IHe. rewrite inv. exact IHe.
+    - (* LogSoftmaxAt *)
+      fold den. rewrite map_den_simp by assumption. unfold den. rewrite IHe. reflexivity.
+  Qed.
+
+  Lemma simp_sound_t t : tdenote T P rho (tmap simp t) = tdenote T P rho t.
+  Proof.
+    destruct t as [v|m|]; cbn [tmap tdenote]; [| |reflexivity]; f_equal.
+    - apply map_den_simp. apply Forall_forall. intros; apply simp_sound_e.
+    - rewrite !concat_map, map_map. f_equal. apply map_ext. intro r.
+      apply map_den_simp. apply Forall_forall. intros; apply simp_sound_e.
+  Qed.
+End SimpSound.
+
+(* the VALUE of the log-probability returned by forward() is the value of the definition at the returned action *)
+Theorem fresh_logprob_value_lemma (T : Type) (P : prims T) (rho : string -> nat -> nat -> T) ed lg mask dr ed' a lp ent B :
+  (forall x, p_atanh T P (p_clamp T P (p_tanh T P x)) = x) ->
+  ed_ok ed -> space_ok (ed_space ed) -> wf_rows B (flatdim (ed_space ed)) lg -> mask_ok (ed_space ed) B mask ->
+  wf_draws (ed_space ed) B dr ->
+  ed_forward ed lg mask dr = Some (ed', a, lp, ent) ->
+  tdenote T P rho lp = tdenote T P rho (spec_logprob (ed_space ed) (ed_squash ed) (eff_logits lg mask) (ed_log_std ed) a).
+Proof.
+  intros inv Hedok Hok Hlg Hm Hdr Hf.
+  destruct (logprob_is_spec_fresh_lemma ed lg mask dr ed' a lp ent B Hedok Hok Hlg Hm Hdr Hf) as [E _].
+  rewrite <- (simp_sound_t T P rho inv lp), E. apply simp_sound_t. exact inv.
+Qed.
+
+(* ------------------------------------------------------------------ the code's rows are independent (stored-action evaluation) *)
+Lemma local2_masked lg mk B D : wf_rows B D lg -> wf_rows B D mk -> local2 lg -> local2 mk -> local2 (masked_spec lg mk).
+Proof.
+  intros [HL HF] [HL' HF'] Hlg Hmk b Hb. unfold masked_spec in *. rewrite zipWith_length in Hb.
+  rewrite (nth_zipWith _ [] [] []) by lia.
+  apply (Forall_zipWith (fun e => only_row b e = true) (fun e => only_row b e = true)).
+  - apply Hlg. lia.
+  - apply Hmk. lia.
+  - intros l m Hl Hm. cbn [only_row]. rewrite Hl, Hm. reflexivity.
+Qed.
+
+Lemma var_t2_local name B D : local2 (var_t2 name B D).
+Proof.
+  intros b Hb. unfold var_t2 in *. rewrite map_length, seq_length in Hb.
+  rewrite (nth_map_in _ 0) by (rewrite seq_length; lia). rewrite seq_nth by lia. cbn [Nat.add].
+  apply Forall_forall. intros e He. apply in_map_iff in He as [i [<- _]]. cbn [only_row].
+  rewrite Nat.eqb_refl. apply orb_true_r.
+Qed.
+
+Theorem stored_rows_independent_lemma ed lg mask dr ed' a lp ent act B b :
+  ed_ok ed -> space_ok (ed_space ed) -> wf_rows B (flatdim (ed_space ed)) lg -> mask_ok (ed_space ed) B mask ->
+  wf_action (ed_space ed) B act -> 0 < ncomp (ed_space ed) ->
+  ed_forward ed lg mask dr = Some (ed', a, lp, ent) ->
+  (ed_squash ed = false \/ forall d1, ed_dist ed' = Some d1 -> cache_hit d1 act = false) ->
+  local2 lg -> (forall mk, mask = Some mk -> local2 mk) -> local2 (rows_of act) ->
+  (forall b', Forall (fun e => only_row b' e = true) (ed_log_std ed)) ->
+  b < B ->
+  match ed_log_prob ed' act with T1 v => length v = B /\ only_row b (nth b v dflt) = true | _ => False end.
+Proof.
+  intros Hedok Hok Hlg Hm Hact Hc Hf Hmiss Ll Lm La Ls Hb.
+  rewrite (logprob_is_spec_stored_lemma ed lg mask dr ed' a lp ent act B) by assumption.
+  assert (HL : length (eff_logits lg mask) = B) by (eapply eff_logits_length; eassumption).
+  assert (Lloc : local2 (eff_logits lg mask)).
+  { destruct mask as [mk|]; cbn [eff_logits]; [|assumption]. destruct Hm as [_ Hmk].
+    eapply local2_masked; try eassumption. apply Lm. reflexivity. }
+  pose proof (rows_independent_lemma (ed_space ed) (ed_squash ed) (eff_logits lg mask) (ed_log_std ed) act B b HL Hact Hc Lloc La Ls Hb) as H.
+  destruct (spec_logprob_rows (ed_space ed) (ed_squash ed) (eff_logits lg mask) (ed_log_std ed) act B HL Hact) as [v [E Hv]].
+  rewrite E in *. split; assumption.
+Qed.
+
+(* ------------------------------------------------------------------ what StochasticActor.forward returns with squashing *)
+Theorem squashed_action_lemma d lg um ac' a lp ent B :
+  wf_rows B d lg ->
+  actor_forward (actor_init (Box d) true) lg None (DrOne (T2 um)) = Some (ac', a, lp, ent) ->
+  a = T2 (map (fun urow => zip3With Scale (map (fun i => Var "low" 0 i) (seq 0 d)) (map (fun i => Var "high" 0 i) (seq 0 d))
+                                     (map Tanh urow)) um)
+  /\ ent = None.
+Proof.
+  intros Hlg Hf. apply actor_forward_head in Hf as [ed' [a0 [Hf [_ Ha]]]].
+  pose proof (ed_forward_space _ _ _ _ _ _ _ _ Hf) as [Hsp _]. cbn [actor_init ac_head ac_squash ed_init ed_space] in *.
+  rewrite Hsp in Ha.
+  rewrite (ed_forward_eq _ lg None (DrOne (T2 um)) B) in Hf by (cbn; auto).
+  cbv zeta in Hf. injection Hf as _ <- _ <-. subst a.
+  cbn. rewrite map_map. split; reflexivity.
+Qed.
